@@ -72,8 +72,9 @@ theorem C14_partial (ops : List Op) (h : ops.all Allowed = true) :
   split
   · simpa using hr
   · next hlt =>
-    have : k.worst.rank ≤ 1 := hr
-    simp only [Grade.rank] at hlt
+    have h1 : k.worst.rank ≤ 1 := hr
+    have h3 : Grade.missing.rank = 3 := rfl
+    rw [h3] at hlt
     omega
 
 /-- the invariant behind `C14_partial` holds in every state reached by such a history
@@ -83,7 +84,7 @@ theorem C14_partial (ops : List Op) (h : ops.all Allowed = true) :
     log file's in-memory index is the replay of its entries, the tag-value cache holds exactly
     supersets the series file filters). -/
 theorem C14_invariant (ops : List Op) (h : ops.all Allowed = true) :
-    ∃ live, GInv (runState ops) live := by
+    ∃ live, GInv (ops.foldl (fun s op => (step s op).1) {}) live := by
   have : ∀ (ops : List Op) (st : State) (k : Spec.C14.Cand), ops.all Allowed = true → Sim k st →
       ∃ k' live, GInv (ops.foldl (fun s op => (step s op).1) st) live ∧ Sim k' (ops.foldl (fun s op => (step s op).1) st) := by
     intro ops
